@@ -40,7 +40,7 @@ SITES = ['reindex_fill', 'shift_fill', 'series_concat', 'frame_concat_rows', 'fr
          'assign_array', 'assign_frame_element', 'fillna_element', 'fillna_series', 'from_records', 'series_from_list', 'row_consolidation',
          'values_2d', 'iter_tuple', 'index_append', 'index_union', 'from_overlay', 'frame_reindex_fill', 'frame_shift_fill',
          'fillna_forward_axis1', 'unset_index', 'insert_fill', 'series_from_dict', 'frame_from_dict_records', 'index_from_list',
-         'fillna_forward_axis1_block', 'fillna_backward_axis1_block', 'assign_frame_into_block', 'series_insert', 'grown_frame_rows', 'frame_overlay', 'pivot_stack_group']
+         'fillna_forward_axis1_block', 'fillna_backward_axis1_block', 'assign_frame_into_block', 'assign_bloc_frame_into_block', 'series_insert', 'grown_frame_rows', 'frame_overlay', 'pivot_stack_group']
 
 
 TECHNIQUE = 'runtime monitoring: loss oracle (every supplied element must be read back equal) at 30 merge sites x the dtype-pair matrix, with arranged Python-value inputs and multi-column block sites'
@@ -395,6 +395,28 @@ def run_site(case):
         o.cell(av[1], r.loc['y', 'p'], 'a')
         o.cell(aw[1], r.loc['y', 'q'], 'a')
         o.untouched('int16', r.dtypes.values[2], 'unaddressed column k')
+    elif site == 'assign_bloc_frame_into_block':
+        # as above through assign.bloc: a Boolean Frame key over two rows of the 2-D block, a Frame value (covering every row, so that
+        # it is not widened by a reindex) whose columns have dtypes a and b
+        from static_frame.core.type_blocks import TypeBlocks
+        aw = av[1:] + av[:1]
+        block = np.empty((n, 2), dtype=np.dtype(a))
+        block[:, 0] = V.to_array(av, a)
+        block[:, 1] = V.to_array(aw, a)
+        block.flags.writeable = False
+        f = sf.Frame(TypeBlocks.from_blocks([block, np.array([1, 2, 3], dtype=np.int16)]), index=list('xyz'), columns=['p', 'q', 'k'])
+        swap = bool((case.get('mask') or [False])[0])
+        vcols = [('p', a, [av[2], av[0], av[1]]), ('q', b, [bv[0], bv[1], bv[2]])]
+        if swap:
+            vcols = [('p', b, [bv[0], bv[1], bv[2]]), ('q', a, [av[2], av[0], av[1]])]
+        value = sf.Frame.from_items([(lab, V.to_array(vals, dt)) for lab, dt, vals in vcols], index=list('xyz'))
+        key = sf.Frame(np.array([[True, True, False], [False, False, False], [True, True, False]]), index=list('xyz'), columns=['p', 'q', 'k'])
+        r = f.assign.bloc[key](value)
+        for lab, dt, vals in vcols:
+            for rl, v in (('x', vals[0]), ('z', vals[2])):
+                o.cell(v, r.loc[rl, lab], 'a' if dt == a else 'b')
+        o.cell(av[1], r.loc['y', 'p'], 'a')
+        o.cell(aw[1], r.loc['y', 'q'], 'a')
     elif site == 'series_insert':
         # insertion of a Series of dtype b into a Series of dtype a at every position, before and after
         s1 = _series(av, a, index=list('xyz'))
